@@ -78,6 +78,11 @@ POOL = [
     ('shared-coalesce-1', lambda: {'a': 1}, SHARED_COAL),
     ('shared-coalesce-2', lambda: {'a': [2]}, SHARED_COAL),
     ('shared-coalesce-fails-mid-build', lambda: {'b': 0}, SHARED_COAL),      # the default list cannot be completed: T['a'] fails
+    # classes created on the fly (and collected again): a later class of another KIND may get the same address
+    ('dynamic-class-object', lambda: type('Dyn', (object,), {'__init__': lambda self: setattr(self, 'k', 'attr-k')})(), 'k'),
+    ('dynamic-class-dict', lambda: type('Dyn', (dict,), {'__slots__': ()})(k='item-k'), 'k'),
+    ('dynamic-class-list', lambda: type('Dyn', (list,), {'__slots__': ()})(['e0', 'e1']), '1'),
+    ('dynamic-class-iterate', lambda: type('Dyn', (list,), {'__slots__': ()})(['e0']), [T]),
     ('starstar-over-opaque-leaf', lambda: {'d': Opaque(), 'k': [1]}, '**'),
     ('iterate-opaque', lambda: Opaque(), [T]),
     ('iterate-opaque-with-default', lambda: {'o': Opaque()}, Coalesce(('o', [T]), default='not iterable')),
